@@ -4361,4 +4361,114 @@ theorem degsum_mono (g u2 u : ℤ) : (0 ≤ u2 ∧ u2 ≤ u) → degsum rnbrs g 
 
 end DegSum
 
+
+/-! # Nineteenth batch: `isorted` and min / max algebra for `iapp`, `isnoc` -/
+
+/-- python `sorted(X)` -/
+def isorted (X : ISeq) : ISeq := X.mergeSort (fun a b => decide (a ≤ b))
+
+theorem isorted_perm (X : ISeq) : (isorted X).Perm X := List.mergeSort_perm X _
+
+/-- adequacy: the result is sorted -/
+theorem isorted_sorted (X : ISeq) : (isorted X).Pairwise (· ≤ ·) := by
+  have := List.pairwise_mergeSort (le := fun a b : ℤ => decide (a ≤ b))
+    (fun a b c hab hbc => by simp only [decide_eq_true_eq] at *; omega)
+    (fun a b => by simp only [Bool.or_eq_true, decide_eq_true_eq]; omega) X
+  exact this.imp (fun h => by simpa using h)
+
+theorem minof_eq_of (s : ISeq) (m : ℤ) (hm : m ∈ s) (hle : ∀ x ∈ s, m ≤ x) : minof s = m :=
+  le_antisymm (minof_le s m hm) (hle _ (minof_mem s (List.ne_nil_of_mem hm)))
+
+theorem maxof_eq_of (s : ISeq) (m : ℤ) (hm : m ∈ s) (hle : ∀ x ∈ s, x ≤ m) : maxof s = m :=
+  le_antisymm (hle _ (maxof_mem s (List.ne_nil_of_mem hm))) (le_maxof s m hm)
+
+theorem minof_perm {s t : ISeq} (h : s.Perm t) : minof s = minof t := by
+  by_cases hs : s = []
+  · subst hs; rw [h.symm.eq_nil]
+  · have ht : t ≠ [] := fun e => hs (by subst e; exact h.eq_nil)
+    exact minof_eq_of s _ (h.symm.subset (minof_mem t ht)) (fun x hx => minof_le t x (h.subset hx))
+
+theorem maxof_perm {s t : ISeq} (h : s.Perm t) : maxof s = maxof t := by
+  by_cases hs : s = []
+  · subst hs; rw [h.symm.eq_nil]
+  · have ht : t ≠ [] := fun e => hs (by subst e; exact h.eq_nil)
+    exact maxof_eq_of s _ (h.symm.subset (maxof_mem t ht)) (fun x hx => le_maxof t x (h.subset hx))
+
+theorem maxabs_perm {s t : ISeq} (h : s.Perm t) : maxabs s = maxabs t := by
+  apply le_antisymm
+  · rw [maxabs_le_iff _ _ (maxabs_nonneg' t)]
+    exact fun x hx => natAbs_le_maxabs t x (h.subset hx)
+  · rw [maxabs_le_iff _ _ (maxabs_nonneg' s)]
+    exact fun x hx => natAbs_le_maxabs s x (h.symm.subset hx)
+
+/-- (s1) `ilen(isorted(X)) == ilen(X)` -/
+theorem ilen_isorted (X : ISeq) : ilen (isorted X) = ilen X := by
+  unfold ilen; rw [(isorted_perm X).length_eq]
+
+/-- (s2) `minof(isorted(X)) == minof(X)` (no guard needed) -/
+theorem minof_isorted (X : ISeq) : minof (isorted X) = minof X := minof_perm (isorted_perm X)
+/-- (s2) `maxof(isorted(X)) == maxof(X)` (no guard needed) -/
+theorem maxof_isorted (X : ISeq) : maxof (isorted X) = maxof X := maxof_perm (isorted_perm X)
+
+/-- (s3) `haszero(isorted(X)) == haszero(X)` -/
+theorem haszero_isorted (X : ISeq) : haszero (isorted X) ↔ haszero X := (isorted_perm X).mem_iff
+/-- (s3) `maxabs(isorted(X)) == maxabs(X)` -/
+theorem maxabs_isorted (X : ISeq) : maxabs (isorted X) = maxabs X := maxabs_perm (isorted_perm X)
+
+/-- (s4) `count(a, isorted(X)) == count(a, X)` -/
+theorem count_isorted (a : Asg) (X : ISeq) : count a (isorted X) = count a X := by
+  unfold count countTrue; rw [(isorted_perm X).countP_eq]
+
+/-- (s4') `count(a, ishift(isorted(X), o)) == count(a, ishift(X, o))` -/
+theorem count_ishift_isorted (a : Asg) (X : ISeq) (o : ℤ) :
+    count a (ishift (isorted X) o) = count a (ishift X o) := by
+  unfold count countTrue ishift
+  rw [((isorted_perm X).map _).countP_eq]
+
+/-- (m1) `And(ilen(s) >= 1, ilen(t) >= 1) -> And(minof(iapp(s, t)) == zmin(minof(s), minof(t)),
+    maxof(iapp(s, t)) == zmax(maxof(s), maxof(t)))` -/
+theorem minmax_iapp (s t : ISeq) : (ilen s ≥ 1 ∧ ilen t ≥ 1) →
+    (minof (iapp s t) = zmin (minof s) (minof t) ∧ maxof (iapp s t) = zmax (maxof s) (maxof t)) := by
+  rintro ⟨hs, ht⟩
+  have hsne : s ≠ [] := by rintro rfl; simp [ilen] at hs
+  have htne : t ≠ [] := by rintro rfl; simp [ilen] at ht
+  rw [zmin_eq_min, zmax_eq_max]
+  unfold iapp
+  constructor
+  · apply minof_eq_of
+    · rcases min_cases (minof s) (minof t) with ⟨h, _⟩ | ⟨h, _⟩ <;> rw [h]
+      · exact List.mem_append_left _ (minof_mem s hsne)
+      · exact List.mem_append_right _ (minof_mem t htne)
+    · intro x hx
+      rcases List.mem_append.mp hx with h | h
+      · have := minof_le s x h; omega
+      · have := minof_le t x h; omega
+  · apply maxof_eq_of
+    · rcases max_cases (maxof s) (maxof t) with ⟨h, _⟩ | ⟨h, _⟩ <;> rw [h]
+      · exact List.mem_append_left _ (maxof_mem s hsne)
+      · exact List.mem_append_right _ (maxof_mem t htne)
+    · intro x hx
+      rcases List.mem_append.mp hx with h | h
+      · have := le_maxof s x h; omega
+      · have := le_maxof t x h; omega
+
+/-- (m2) `ilen(t) == 0 -> iapp(s, t) == s` -/
+theorem iapp_nil_right (s t : ISeq) : ilen t = 0 → iapp s t = s := by
+  intro h; rw [nil_of_length_zero t h]; simp [iapp, inil]
+/-- (m2) `ilen(s) == 0 -> iapp(s, t) == t` -/
+theorem iapp_nil_left (s t : ISeq) : ilen s = 0 → iapp s t = t := by
+  intro h; rw [nil_of_length_zero s h]; simp [iapp, inil]
+
+/-- (m3) `ilen(s) == 0 -> And(minof(isnoc(s, x)) == x, maxof(isnoc(s, x)) == x)` -/
+theorem minmax_snoc_nil (s : ISeq) (x : ℤ) : ilen s = 0 →
+    (minof (isnoc s x) = x ∧ maxof (isnoc s x) = x) := by
+  intro h; rw [nil_of_length_zero s h]; exact ⟨rfl, rfl⟩
+
+/-- (m3) `ilen(s) >= 1 -> And(minof(isnoc(s, x)) == zmin(minof(s), x), maxof(isnoc(s, x)) == zmax(maxof(s), x))` -/
+theorem minmax_snoc (s : ISeq) (x : ℤ) : ilen s ≥ 1 →
+    (minof (isnoc s x) = zmin (minof s) x ∧ maxof (isnoc s x) = zmax (maxof s) x) := by
+  intro h
+  have := minmax_iapp s [x] ⟨h, by simp [ilen]⟩
+  simpa [iapp, isnoc, minof, maxof] using this
+
 end CnfSem
